@@ -60,6 +60,8 @@ Theorem C14_distinct_keys_never_share : forall H,
 Proof. exact distinct_keys_never_share. Qed.
 Print Assumptions C14_distinct_keys_never_share.
 
+(* Paths are compared as texts: sub-cache names whose components are empty, `.` or `..` (which a file system
+   resolves to the parent's own directory or outside it) are outside the domain of these statements. *)
 Theorem C14_subcache_files_disjoint : forall H,
   (forall s, List.length (H s) = 64 /\ ~ In "/"%char (H s)) ->
   forall c name k1 k2, cpath H c k1 <> cpath H (subcache c name) k2.
